@@ -14,6 +14,7 @@ import (
 	"runtime/debug"
 	"sort"
 	"strings"
+	"sync/atomic"
 	"time"
 
 	"verif.local/simrt"
@@ -103,6 +104,12 @@ func classify(v any) string {
 	return "panic"
 }
 
+// ExecStart is the wall-clock start (unix nanos) of the execution in progress,
+// 0 when none is; CurrentDesc describes what is being executed. Both are read
+// by the worker's wall-clock watchdog.
+var ExecStart atomic.Int64
+var CurrentDesc atomic.Value
+
 // Simulate runs f as one simulated execution under the given schedule and
 // fault plan. Panics of the system under test are recovered and classified.
 func Simulate(sched simrt.Schedule, fsPlan *simrt.FSPlan, maxTicks uint64, f func() error) (ex *Exec) {
@@ -110,9 +117,11 @@ func Simulate(sched simrt.Schedule, fsPlan *simrt.FSPlan, maxTicks uint64, f fun
 	ex = &Exec{Run: r}
 	start := time.Now()
 	simrt.ResetCopyDepth()
+	ExecStart.Store(start.UnixNano())
 	simrt.Begin(r)
 	defer func() {
 		simrt.End()
+		ExecStart.Store(0)
 		ex.Ticks = r.Ticks
 		ex.LogHash = r.LogHash
 		ex.WallNs = time.Since(start).Nanoseconds()
@@ -123,6 +132,14 @@ func Simulate(sched simrt.Schedule, fsPlan *simrt.FSPlan, maxTicks uint64, f fun
 				stack = stack[i:]
 			}
 			ex.Panic = &PanicInfo{Class: classify(v), Value: fmt.Sprint(v), Frame: innermostCogFrame(stack), Stack: truncate(stack, 6000)}
+		} else if r.Aborted != nil {
+			// the budget panic was swallowed on the way up (text/template
+			// converts panics of template functions into errors)
+			frame := "(swallowed)"
+			if o, ok := r.Aborted.(simrt.Overflow); ok {
+				frame = innermostCogFrame(o.Func + "(")
+			}
+			ex.Panic = &PanicInfo{Class: classify(r.Aborted), Value: r.Aborted.Error(), Frame: frame}
 		}
 	}()
 	ex.Err = f()
